@@ -76,6 +76,13 @@ def prefix_search(chk, rid):
       if isinstance(x, ast.While) and isinstance(x.test, ast.Compare) and \
           isinstance(x.test.ops[0], ast.In) and 'prefix' in norm(x.test.left):
         found.append((f, x))
+      # the same search written as `for idx in itertools.count(a, step)` with a
+      # break when the prefix is free
+      if isinstance(x, ast.For) and isinstance(x.iter, ast.Call) and call_tail(x.iter) == 'count' \
+          and isinstance(x.target, ast.Name) and any(
+              isinstance(b_, ast.If) and 'prefix' in norm(b_.test) and
+              any(isinstance(z, ast.Break) for z in b_.body) for b_ in x.body):
+        found.append((f, x))
   if len(found) != 1:
     raise AnalysisError('parse.py: prefix uniquification loop not recognised (%d candidates)' % len(found))
   host, loop = found[0]
@@ -100,6 +107,15 @@ def prefix_search(chk, rid):
   idxname = None
   guard = None
   reads = []
+  first_used = None
+  if isinstance(loop, ast.For):
+    idxname = loop.target.id
+    cargs = loop.iter.args
+    try:
+      first_used = tiny_eval(cargs[0], {}) if cargs else 0
+      step = tiny_eval(cargs[1], {}) if len(cargs) > 1 else 1
+    except _Unknown as e:
+      raise AnalysisError('prefix loop: itertools.count arguments not constant (%s)' % e)
   for st in loop.body:
     if isinstance(st, ast.AugAssign) and isinstance(st.target, ast.Name) and \
         isinstance(st.value, ast.Constant) and isinstance(st.op, (ast.Sub, ast.Add)):
@@ -117,18 +133,30 @@ def prefix_search(chk, rid):
   init = [x.value for x in walk_local(v.fi.node) if isinstance(x, ast.Assign) and
           any(isinstance(t, ast.Name) and t.id == idxname for t in x.targets) and
           x.lineno < loop.lineno]
-  if len(init) != 1 or not reads:
+  if (first_used is None and len(init) != 1) or not reads:
     raise AnalysisError('ParseFile: prefix loop initialisation / component read not recognised')
   seq = reads[0]
+  # components read with a constant index before the loop (the base name)
+  const_reads = []
+  for x in walk_local(v.fi.node):
+    if isinstance(x, ast.Subscript) and dotted(x.value) == seq and x.lineno < loop.lineno:
+      try:
+        const_reads.append(tiny_eval(x.slice, {}))
+      except _Unknown:
+        pass
   problems = []
   explored = 0
   for nparts in (2, 3, 4):
     env = {'len:' + seq: nparts}
-    try:
-      idx = tiny_eval(init[0], env)
-    except _Unknown as e:
-      raise AnalysisError('prefix loop: cannot evaluate initial index (%s)' % e)
-    used = {idx % nparts if -nparts <= idx < nparts else None}
+    if first_used is None:
+      try:
+        idx = tiny_eval(init[0], env)
+      except _Unknown as e:
+        raise AnalysisError('prefix loop: cannot evaluate initial index (%s)' % e)
+      used = {idx % nparts if -nparts <= idx < nparts else None}
+    else:
+      idx = first_used - step
+      used = {c_ % nparts for c_ in const_reads if -nparts <= c_ < nparts}
     for k in range(1, nparts):
       idx += step
       env[idxname] = idx
@@ -310,31 +338,59 @@ def run(chk):
              norm(early[0], 60) if early else 'several returns'), fi=rp.fi)
   # for a dict and for a list, some path makes the recursive call on a child
   # of the node (abstract interpretation; the test on the child is left open)
-  from sa.absint import Interp, State, Sym
+  from sa.absint import Const, Interp, State, Sym
   import re as _re
   param = rp.fi.params[0]
+  # the node being visited: the parameter, or what is popped from a work list
+  # (recursion written as an explicit stack)
+  worklists, nodes_ = set(), {param}
+  for x in walk_local(rp.fi.node):
+    if isinstance(x, ast.Assign) and isinstance(x.value, ast.Call) and \
+        call_tail(x.value) in ('pop', 'popleft') and isinstance(x.value.func, ast.Attribute) and \
+        isinstance(x.value.func.value, ast.Name) and isinstance(x.targets[0], ast.Name):
+      worklists.add(x.value.func.value.id)
+      nodes_.add(x.targets[0].id)
+  derived = set(nodes_)
+  grew = True
+  while grew:
+    grew = False
+    for x in walk_local(rp.fi.node):
+      tg, val = None, None
+      if isinstance(x, ast.Assign) and isinstance(x.targets[0], ast.Name):
+        tg, val = x.targets[0].id, x.value
+      elif isinstance(x, (ast.For, ast.comprehension)) and isinstance(x.target, ast.Name):
+        tg, val = x.target.id, x.iter
+      if tg and tg not in derived and any(isinstance(n, ast.Name) and n.id in derived
+                                         for n in ast.walk(val)):
+        derived.add(tg)
+        grew = True
+
+  def mentions_derived(e):
+    return any(isinstance(n, ast.Name) and n.id in derived for n in ast.walk(e))
   for kind in ('dict', 'list'):
     def call(node, st, interp, kind=kind):
       t = call_tail(node)
-      if t == 'isinstance' and len(node.args) == 2:
-        subj = interp.value(node.args[0], st)
-        if isinstance(subj, Sym) and subj.text == param:
-          names = {dotted(x) for x in ([node.args[1]] if not isinstance(node.args[1], ast.Tuple)
-                                        else node.args[1].elts)}
-          from sa.absint import Const
-          return Const(kind in names)
+      if t == 'isinstance' and len(node.args) == 2 and isinstance(node.args[0], ast.Name) \
+          and node.args[0].id in nodes_:
+        names = {dotted(x) for x in ([node.args[1]] if not isinstance(node.args[1], ast.Tuple)
+                                      else node.args[1].elts)}
+        return Const(kind in names)
       if t == 'RenamePredicate' and node.args:
-        a0 = interp.value(node.args[0], st)
-        st.effects.append(('rec', a0.text if isinstance(a0, Sym) else norm(node.args[0])))
+        if mentions_derived(node.args[0]):
+          st.effects.append(('rec', norm(node.args[0])))
         return Sym('count')
+      if t in ('append', 'extend', 'appendleft') and isinstance(node.func, ast.Attribute) and \
+          isinstance(node.func.value, ast.Name) and node.func.value.id in worklists and node.args:
+        if mentions_derived(node.args[0]):
+          st.effects.append(('rec', norm(node.args[0])))
+        return Const(None)
       return NotImplemented
     it = Interp(rp.fi.node, dict(call=call, loop=lambda n, s: 'body'), max_paths=2000)
     try:
       outs = it.run(State(env={param: Sym(param)}))
     except AnalysisError:
       outs = []
-    hit = any(e[0] == 'rec' and _re.search(r'\b%s\b' % _re.escape(param), e[1])
-              for o in outs for e in o.state.effects)
+    hit = any(e[0] == 'rec' for o in outs for e in o.state.effects)
     chk.ob('C12-R3', hit, None, 'RenamePredicate recurses into the children of a %s' % kind,
            'for a %s node no path makes the recursive call on its children: '
            'predicate names below it keep the unprefixed name' % kind, fi=rp.fi)
